@@ -260,7 +260,7 @@ def _setup(ctx, col):
                 f"options built as `{norm_text(opts[0])}`", text="CheckpointManagerOptions")
         mgr = [c for c in calls_in(cfn) if ast.unparse(c.func).endswith("CheckpointManager")]
         okm = len(mgr) == 1 and mgr[0].args and isinstance(mgr[0].args[0], ast.Name) and mgr[0].args[0].id == "checkpoint_dir" \
-            and any(k.arg == "options" and isinstance(k.value, ast.Name) for k in mgr[0].keywords)
+            and any(k.arg == "options" and (isinstance(k.value, ast.Name) or k.value is opts[0]) for k in mgr[0].keywords)
         col.add("R12.3", "CheckpointMixin._create_checkpoint_manager", file, cfn.lineno, bool(okm),
                 "CheckpointManager(checkpoint_dir, options=options)" if okm else "manager not built from (checkpoint_dir, options)",
                 text="CheckpointManager")
@@ -271,16 +271,9 @@ def _setup(ctx, col):
             "self.checkpoint_frequency is the set-up parameter" if okf else "self.checkpoint_frequency is not assigned from the parameter",
             text="self.checkpoint_frequency = checkpoint_frequency")
 
-    # --- R12.4 the f == 0 return dominates file-system effects
-    ret = None
-    for n in g.stmts():
-        if n.kind == "test" and isinstance(n.ast, ast.If):
-            t = n.ast.test
-            if (isinstance(t, ast.Compare) and len(t.ops) == 1 and isinstance(t.ops[0], ast.Eq)
-                    and ast.unparse(t.left) in ("self.checkpoint_frequency", "checkpoint_frequency")
-                    and isinstance(t.comparators[0], ast.Constant) and t.comparators[0].value == 0):
-                if any(isinstance(s, ast.Return) for s in n.ast.body) and not n.ast.orelse:
-                    ret = n
+    # --- R12.4 file-system effects happen only on paths where the frequency is known to be positive
+    from .common import conditions_at, implies_positive
+    FREQ = {"self.checkpoint_frequency"} | ({"checkpoint_frequency"} if okf else set())
     effects = []
     for n in g.stmts():
         region = SolveLoop.node_region(n)
@@ -294,14 +287,19 @@ def _setup(ctx, col):
                 nm = self_call_name(c)
                 if nm in ("_create_checkpoint_manager", "_save_solver_config"):
                     effects.append((n, nm))
-    if ret is None:
+    if not effects:
         col.add("R12.4", "CheckpointMixin._setup_checkpointing", file, fn.lineno, False,
-                "no `if checkpoint_frequency == 0: return` in the set-up", text="frequency-zero return")
+                "the set-up creates no directory / manager at all", text="frequency-zero return")
+    else:
+        col.add("R12.4", "CheckpointMixin._setup_checkpointing", file, fn.lineno, True,
+                f"{len(effects)} file-system / manager effects located", text="frequency-zero return")
     for n, kind in effects:
-        ok = ret is not None and g.dominates(ret, n) and _on_false_side(g, ret, n)
+        conds = conditions_at(fn, n.ast)
+        ok = any(implies_positive(c, FREQ) for c in conds)
         col.add("R12.4", "CheckpointMixin._setup_checkpointing", file, n.lineno, ok,
-                f"`{kind}` is reached only past the frequency-zero return" if ok else
-                f"`{kind}` at line {n.lineno} can execute with checkpoint_frequency == 0", text=f"{kind} after f==0 return")
+                f"`{kind}` is reached only where checkpoint_frequency != 0 is known" if ok else
+                f"`{kind}` at line {n.lineno} can execute with checkpoint_frequency == 0 (path conditions: {[ast.unparse(c) for c in conds]})",
+                text=f"{kind} after f==0 return")
 
     # --- R12.5 config written iff has_full_config
     sites = [(n, c) for n in g.stmts() for c in _calls_at(n) if self_call_name(c) == "_save_solver_config"]
@@ -309,11 +307,10 @@ def _setup(ctx, col):
     why5 = f"{len(sites)} calls of _save_solver_config (expected 1)"
     if ok5:
         n = sites[0][0]
-        parents = parents_of(fn)
-        p = parents.get(id(n.ast))
-        ok5 = isinstance(p, ast.If) and n.ast in p.body and is_self_attr(p.test, "has_full_config") and parents.get(id(p)) is fn
-        why5 = "_save_solver_config() is called exactly under `if self.has_full_config:`" if ok5 else \
-            f"_save_solver_config() is not guarded by exactly `self.has_full_config` (enclosing: {norm_text(p) if p is not None else None})"
+        conds = [c for c in conditions_at(fn, n.ast, raising_guards=False) if not implies_positive(c, FREQ)]
+        ok5 = len(conds) == 1 and is_self_attr(conds[0], "has_full_config")
+        why5 = "_save_solver_config() is called exactly under `self.has_full_config` (besides the frequency guard)" if ok5 else \
+            f"_save_solver_config() is not guarded by exactly `self.has_full_config` (path conditions: {[ast.unparse(c) for c in conds]})"
     col.add("R12.5", "CheckpointMixin._setup_checkpointing", file, (sites[0][0].lineno if sites else fn.lineno), ok5, why5,
             text="_save_solver_config under has_full_config")
     so, sfn = ctx.ct.require(cm, "_save_solver_config")
@@ -398,18 +395,19 @@ def _enabled(ctx, col):
                 return True
             return False
 
-        ok = any(positive(c) for c in conj)
+        from .common import implies_positive
+        ok = any(positive(c) or implies_positive(c, {"self.checkpoint_frequency"}) and not is_self_attr(c) for c in conj)
     col.add("R12.1", "CheckpointMixin.is_checkpointing_enabled", owner.module.relpath, fn.lineno, ok,
             "enabled implies self.checkpoint_frequency > 0" if ok else "enabled-test does not require checkpoint_frequency > 0",
             text="is_checkpointing_enabled")
     # save() returns early when not enabled
     so, sfn = ctx.ct.require(cm, "save")
     dsfn = deref(sfn, sfn)
-    # the first statement that is not a docstring / plain alias binding must be the enabled-guard
-    first = [s for s in dsfn.body if not (isinstance(s, ast.Expr) and isinstance(s.value, ast.Constant))
-             and not (isinstance(s, ast.Assign) and isinstance(s.value, ast.Attribute) and not calls_in(s))]
-    ok2 = bool(first) and isinstance(first[0], ast.If) and isinstance(first[0].test, ast.UnaryOp) and isinstance(first[0].test.op, ast.Not) \
-        and _is_enabled(first[0].test.operand) and any(isinstance(x, ast.Return) for x in first[0].body)
+    # every manager.save / state snapshot in save() runs only where `self.is_checkpointing_enabled` is known to hold
+    from .common import conditions_at
+    writes = [st for st in ast.walk(dsfn) if isinstance(st, ast.stmt) and not isinstance(st, (ast.If, ast.FunctionDef)) and any(
+        isinstance(c.func, ast.Attribute) and c.func.attr == "save" and "checkpoint_manager" in ast.unparse(c.func.value) for c in calls_in(st))]
+    ok2 = bool(writes) and all(any(_is_enabled(c) for c in conditions_at(dsfn, st)) for st in writes)
     col.add("R12.4", "CheckpointMixin.save", so.module.relpath, sfn.lineno, ok2,
             "save() writes nothing unless checkpointing is enabled" if ok2 else "save() lacks the `if not self.is_checkpointing_enabled: return` guard",
             text="save early return")
